@@ -35,7 +35,7 @@ TRUSTED = [
     "hand-written structure of Model.lean (four indexes as lists keyed by the entry's key instead of iterators), tied by the correspondence run",
     "hash_map / std::list / std::multimap / std::set / std::basic_string semantics (modelled as association lists / lists; multimap inserts after equal keys)",
     "the shared-memory allocator's outcomes (bad_alloc, not_enough_memory) are inputs (StoreEnv), recorded from the real allocator by the harness for the correspondence run",
-    "cache_interface/triggers_recorder model (Iface.lean) is tied by the translator's statement-order checks and generated constants only (no correspondence run against a real cache_interface)",
+    "cache_interface/triggers_recorder model (Iface.lean): translator statement-order checks + correspondence against a real cppcms::cache_interface over a cppcms::service (harness/c07i.cpp: stand-alone interface object and pages built by real SCGI requests; thread_shared back-end, no gzip)",
     "correspondence harness harness/c07.cpp (ASan+UBSan build of the working tree; time() interposed at link time; process_settings::process_memory reached by re-declaring the struct)",
 ]
 
@@ -166,6 +166,49 @@ def main():
             small = R.shrink(hists[hi], shm, lambda cand: R.differs(cand, shm, ko))
             c.broke(f"correspondence stream {name}",
                     f"{len(r['diffs'])} differing lines; first: `{cs}` impl=`{a}` model=`{b}`; minimal differing history: {json.dumps(small)} (shm={shm})")
+    # ---- trigger-recording layer: real cppcms::cache_interface over a cppcms::service (harness/c07i.cpp)
+    ibin = c.harness("c07i")
+    if ibin:
+        hists = [H.iface_history(c.rng, c.rng.choice((0, 0, 2, 5)), c.rng.randrange(10, 60)) for _ in range(300 if c.tier == "thorough" else 40)]
+        corpus_i = [[l.strip() for l in open(os.path.join(ROOT_, "gen", "corpus", "C07", f)) if l.strip() and not l.startswith("#")]
+                    for f in sorted(os.listdir(os.path.join(ROOT_, "gen", "corpus", "C07"))) if f.endswith(".ihist")]
+        hists = corpus_i + hists
+        cases, hist_of = [], []
+        for hi, h in enumerate(hists):
+            for l in h:
+                cases.append(l); hist_of.append(hi)
+        out_i, out_m, diffs, crashed = c.correspond("iface", cases, ibin, model, canon=H.canon_iface,
+                                                    nontrivial=lambda cs, o: cs if (o.startswith(("hit", "cached", "detached")) and "detached -" not in o) else None)
+        for cs in cases:
+            dist[cs.split()[0]] = dist.get(cs.split()[0], 0) + 1
+        judged += len(cases)
+        c.samples += [{"stream": "iface", "case": cases[i], "impl": out_i[i] if i < len(out_i) else None, "model": out_m[i] if i < len(out_m) else None}
+                      for i in (1, len(cases) // 2) if i < len(cases)]
+        def iface_fails(h):
+            rc, o, err = c.run_lines(ibin, h)
+            return rc != 0 or len(o) < len(h) or bool(H.iface_judge(h, o))
+        if crashed:
+            k = len(out_i)
+            c.violation("sanitizer abort / crash of the service / cache_interface", {"history": hists[hist_of[min(k, len(hist_of) - 1)]], "stderr": crashed["stderr"]})
+        else:
+            bad = H.iface_judge(cases, out_i)
+            seen_h = set()
+            for k, msg in bad:
+                hi = hist_of[k]
+                if hi in seen_h or len(seen_h) >= 3:
+                    continue
+                seen_h.add(hi)
+                small = R.shrink(hists[hi], 0, iface_fails, budget=120) if iface_fails(hists[hi]) else hists[hi]
+                rc, o, err = c.run_lines(ibin, small)
+                c.violation("cache_interface: " + (H.iface_judge(small, o) or [(0, msg)])[0][1],
+                            {"history": small, "impl_outputs": o, "stream": "iface", "note": "replay: .build/harness/c07i < history"})
+            if diffs and not bad:
+                k, cs, a, b = diffs[0]
+                def idiffers(h):
+                    rc, o, err = c.run_lines(ibin, h); rc2, m2, err2 = c.run_lines(model, h)
+                    return [H.canon_iface(x) for x in o] != [H.canon_iface(x) for x in m2]
+                small = R.shrink(hists[hist_of[k]], 0, idiffers, budget=120)
+                c.broke("correspondence stream iface", f"{len(diffs)} differing lines; first: `{cs}` impl=`{a}` model=`{b}`; minimal differing history: {json.dumps(small)}")
     if R.lowmem_lines:
         c.log(f"note: {R.lowmem_lines} lines ran under low shared memory")
     c.extra_cov["op_distribution"] = dist
